@@ -49,6 +49,11 @@ SLOTS: dict[tuple[str, str], tuple[str, str, dict]] = {
     ('Raise', 'exc'): ('raise {}', 'exc', {}),
     ('Raise', 'cause'): ('raise t from {}', 'cause', {}),
     ('withitem', 'context_expr'): ('with {} as t: pass', 'items[0].context_expr', {}),
+    ('withitem', 'context_expr(noas)'): ('with {}: pass', 'items[0].context_expr', {}),
+    ('withitem', 'context_expr(async)'): ('async with {} as t: pass', 'items[0].context_expr', {}),
+    ('withitem', 'context_expr(async,noas)'): ('async with {}: pass', 'items[0].context_expr', {}),
+    ('withitem', 'context_expr(second)'): ('with aa, {}: pass', 'items[1].context_expr', {}),
+    ('For', 'iter(async)'): ('async for t in {}: pass', 'iter', {}),
     ('Match', 'subject'): ('match {}:\n    case _: pass', 'subject', {}),
     ('match_case', 'guard'): ('match t:\n    case _ if {}: pass', 'cases[0].guard', {}),
     ('FunctionDef', 'decorator_list'): ('@{}\ndef gg(): pass', 'decorator_list[0]', {}),
